@@ -29,7 +29,7 @@ Sch == [fields |-> <<Fld("i", TInt), Fld("s", TBytes), Fld("b1", TBool), Fld("ai
 I(n) == VInt(IntOfNat(n))
 B(s) == VBytes(s)
 L1 == <<[kind |-> "set", sets |-> <<[name |-> <<108, 49>>, vals |-> <<I(1)>>]>>]>>
-Ctxs == << [sch |-> 1, vals |-> <<I(1), B(<<97>>), VBool(TRUE), VArr(TInt, <<I(1), I(2)>>), VArr(TBytes, <<B(<<97>>), B(<<>>), B(<<98, 99>>)>>),
+Ctxs == << [sch |-> 1, vals |-> <<I(1), B(<<97>>), VBool(TRUE), VArr(TInt, <<I(1), I(2)>>), VArr(TBytes, <<B(<<97>>), B(<<>>), B(<<98, 99>>), B(<<100>>)>>),
                                    VMap(TBytes, <<[k |-> <<107>>, v |-> B(<<120>>)], [k |-> <<122>>, v |-> B(<<>>)]>>), VArr(TBool, <<VBool(FALSE), VBool(TRUE)>>),
                                    VArr(TInt, <<I(9)>>)>>, lists |-> L1],
             [sch |-> 1, vals |-> <<I(7), B(<<>>), VBool(FALSE), VArr(TInt, <<>>), VArr(TBytes, <<>>), VMap(TBytes, <<>>), VArr(TBool, <<>>), VArr(TInt, <<>>)>>, lists |-> L1],
@@ -72,7 +72,8 @@ ArgShapes == << <<Id("s")>>,                                  \* 1  Bytes field
                 <<LP, Id("ai")>> \o Each \o Eq1 \o <<RP>>,  \* 20 logical -> Array(Bool)
                 <<LitIp>>,                                   \* 21 Ip literal
                 <<Id("ai2")>>,                               \* 22 another Array(Int) field
-                <<LP, Id("i"), [k |-> "in"], [k |-> "list", name |-> <<108, 49>>, valid |-> TRUE, txt |-> "$l1"], RP>> >>  \* 23 list comparison -> Bool
+                <<LP, Id("i"), [k |-> "in"], [k |-> "list", name |-> <<108, 49>>, valid |-> TRUE, txt |-> "$l1"], RP>>,  \* 23 list comparison -> Bool
+                <<Id("idb"), LP, Id("abytes")>> \o Each \o <<RP>> \o Each >>   \* 24 map-each over the array produced by a mapped call
 NS == Len(ArgShapes)
 RECURSIVE Join(_)
 Join(args) == IF args = <<>> THEN <<>> ELSE IF Len(args) = 1 THEN ArgShapes[args[1]]
@@ -81,7 +82,7 @@ CallToks(f, args) == <<Id(Funcs[f].name), LP>> \o Join(args) \o <<RP>>
 Arities(f) == IF Funcs[f].name = "concat" THEN {2, 3} ELSE IF Funcs[f].name = "ctxfn" THEN {0, 1, 2}
               ELSE (Len(Funcs[f].params) - 1)..(Len(Funcs[f].params) + Len(Funcs[f].opts) + 1) \cap 0..3
 (* shapes used per position keep the product small but cover right / wrong kind, type, absence, map-each *)
-First == {1, 2, 3, 5, 6, 7, 8, 9, 10, 11, 13, 14, 15, 16, 18, 19, 20, 23}
+First == {1, 2, 3, 5, 6, 7, 8, 9, 10, 11, 13, 14, 15, 16, 18, 19, 20, 23, 24}
 Later == {1, 3, 5, 7, 8, 10, 11, 12, 15, 17, 21, 23}
 (* concat additionally takes whole arrays in every position *)
 FirstFor(f) == IF Funcs[f].name = "concat" THEN First \cup {22} ELSE First
@@ -119,13 +120,22 @@ FilterVector == LET r == ParseFilter(FilterToks, Sch, 128) IN
                 runs |-> Strict([n \in 1..Len(Ctxs) |-> [ctx |-> n, out |-> "ok", res |-> EvalFilter(r.node, Ctxs[n], Sch)]]),
                 uses |-> UsesOf(LAMBDA f : UsesLogical(r.node, f), LAMBDA f : UsesListLogical(r.node, f))]
   ELSE [ev |-> "filter", sch |-> 1, max |-> 128, ts |-> FilterToks, ok |-> FALSE]
-Emit == PrintT(<<"REPLAY", ToJson(ValueVector)>>) /\ PrintT(<<"REPLAY", ToJson(FilterVector)>>)
+IndexedToks ==
+  LET r == ParseValue(CT, Sch, 128) IN
+  IF r.ok /\ r.ty = TArr(TBytes) THEN CT \o Ix(0) \o <<[k |-> "ord", v |-> "ne", a |-> 1], LitB>>
+  ELSE IF r.ok /\ r.ty = TArr(TInt) THEN CT \o Ix(1) \o <<[k |-> "ord", v |-> "ne", a |-> 0], LitI>>
+  ELSE <<>>
+IndexedVector == LET r == ParseFilter(IndexedToks, Sch, 128) IN
+  [ev |-> "filter", sch |-> 1, max |-> 128, ts |-> IndexedToks, ok |-> r.ok, ast |-> AstJson(r.node),
+   runs |-> Strict([n \in 1..Len(Ctxs) |-> [ctx |-> n, out |-> "ok", res |-> EvalFilter(r.node, Ctxs[n], Sch)]]), uses |-> <<>>]
+Emit == /\ PrintT(<<"REPLAY", ToJson(ValueVector)>>) /\ PrintT(<<"REPLAY", ToJson(FilterVector)>>)
+        /\ IndexedToks # <<>> => PrintT(<<"REPLAY", ToJson(IndexedVector)>>)
 (* L1 side conditions of a call, stated independently of the parser: arity within bounds *)
 ArityRule == LET f == Funcs[cas[1]] n == Len(cas[2]) r == ParseValue(CT, Sch, 128) IN
   r.ok => IF f.name = "concat" THEN n >= 2 ELSE IF f.name = "ctxfn" THEN n <= 3
           ELSE n >= Len(f.params) /\ n <= Len(f.params) + Len(f.opts)
 MapEachOnlyFirst == LET r == ParseValue(CT, Sch, 128) IN
-  r.ok => \A j \in 2..Len(cas[2]) : cas[2][j] \notin {8, 9, 13}
+  r.ok => \A j \in 2..Len(cas[2]) : cas[2][j] \notin {8, 9, 13, 24}
 ASSUME /\ PrintT(<<"REPLAY", ToJson([hdr |-> "scheme", sch |-> Sch])>>)
        /\ \A n \in 1..Len(Ctxs) : PrintT(<<"REPLAY", ToJson([hdr |-> "ctx", ctx |-> Ctxs[n]])>>)
 =============================================================================
